@@ -514,6 +514,7 @@ var fixedProgs = []string{
 	"if 1 { 2 } else { 3 }", "i=0; while i<3 { i=i+1 }", "i=0; while i<3 { i=i+1; if i>1 { continue } }", "func g(n) { if n { return 1 } 2 }; g(1)", "return 5", "`{% if 1 { 2 } %}`",
 	"^stx=(`{% if 1 { 2 } %}`)", "^stx=`{% if 1 { 2 } %}`", "&c = `{% func h() { 1 } %}`; c", "3d", "d", "d+1", "2d+d", "[d]", "`{d}`", "func g() { d }; g()", "&c = 3d; c", "^stx=3d", "^stx=(d)", "^stx+d",
 	"1|2", "1&2", "x = 1 | 2 & 3", "`{1|2}`", "func g() { 1|2 }; g()", "&c = 1&2; c", "^stx=1|2", "^stx=(1|2)", "^stx+(1&2)", "^st&c=(1|2)", "1||2", "1&&2", "&x", "&x = 1",
+	"^sta=1 b=(2)", "^sta=1 b=2 c=(3)", "^sta=1 &b=(2)", "^sta+=1 b+=(2)", "^sta=(1) b=(2) c=(3) d=(4)", "^sta=1 b=(`{% if 1 { 2 } %}`)", "^sta1 b=(`{% i = 0; while i < 1 { i = i + 1 } %}`)",
 	"2d6kh1", "d20优势", "1 ? 2 : 3", "0 ? 2, 1 ? 3", "x = 1; x", "[1,2,3][1:2]", "null ?? 1", "{'a':1,}",
 }
 
@@ -710,7 +711,48 @@ var spellContexts = []string{
 	"%s // c", "// c\n%s", "return %s", "'s' + %s", "%s;%s", "%s\n%s", "1;%s", "x.y = %s", "x = [0]; x[0] = %s", "this.y = %s", "%sd6", "d%s", "2d6k%s", "[1..%s]", "1d6 %s", "toStr(%s)", "g(%s, %s)",
 }
 
+// stItemForms: the forms of one entry of an st list ({n} name, {v} value); est brackets every value with a
+// save/restore of the syntax flags, so what a later value may contain must not depend on the values before it.
+var stItemForms = []string{"{n}={v}", "{n}=({v})", "&{n}=({v})", "&{n}={v}", "{n}+=({v})", "{n}+({v})", "{n}-=({v})", "{n}:{v}", "{n}{v}", "{n}*2=({v})", "'{n} 2'=({v})"}
+
+// drawStList draws `^st` followed by 1..5 entries; the values are small integers, gated terms (preferably of a
+// gate the configuration keeps closed) or free spellings.
+func drawStList(t *rapid.T, cfg vmx.Cfg) string {
+	var closed []string
+	for _, g := range allGates {
+		if !gateOpen(cfg, g) {
+			closed = append(closed, g)
+		}
+	}
+	n := rapid.IntRange(1, 5).Draw(t, "stItems")
+	var sb strings.Builder
+	sb.WriteString("^st")
+	for i := 0; i < n; i++ {
+		if i > 0 {
+			sb.WriteString(rapid.SampledFrom([]string{" ", " ", ",", ", "}).Draw(t, "stSep"))
+		}
+		v := rapid.SampledFrom([]string{"1", "2", "30"}).Draw(t, "stInt")
+		switch k := rapid.IntRange(0, 9).Draw(t, "stValKind"); {
+		case k < 4:
+			gates := allGates
+			if len(closed) > 0 && k != 0 {
+				gates = closed
+			}
+			v = rapid.SampledFrom(temptTerms[rapid.SampledFrom(gates).Draw(t, "stGate")]).Draw(t, "stTerm")
+		case k == 4:
+			v = drawSpell(t, cfg)
+		}
+		form := rapid.SampledFrom(stItemForms).Draw(t, "stForm")
+		name := rapid.SampledFrom([]string{"a", "b", "x", "力量", "hp", "c"}).Draw(t, "stName")
+		sb.WriteString(strings.NewReplacer("{n}", name, "{v}", v).Replace(form))
+	}
+	return sb.String()
+}
+
 func drawSpellCase(t *rapid.T, s *rt.Section, cfg vmx.Cfg) (src, ctx string) {
+	if rapid.IntRange(0, 7).Draw(t, "stList") == 0 {
+		return drawStList(t, cfg), "^st <list of 1..5 entries>"
+	}
 	ctx = rapid.SampledFrom(spellContexts).Draw(t, "ctx")
 	if ctx == "^stx-%s" && s.Avoid("st_minus_value") {
 		// C16-F01: `^st name-value` panics when the value is not a number; the -= form does not negate
@@ -1254,7 +1296,7 @@ func TestProp(t *testing.T) {
 		})
 
 	run.Check("spell", 32000, 400000,
-		"spellings: 1..7 atoms drawn from whole gated terms (2a5, b2, f, 2c5m7, 3d, (1|2), a template hole holding a statement, ... preferring closed gates), family letters (both cases), modifier letters (m k q d kh kl dh dl min max 优势), numbers, parentheses/brackets, identifier characters (ASCII, CJK, $ _ :, the full-width brackets and digit that count as identifier characters), blanks and operators, placed in one of 61 contexts (bare, assignment, list, call, template holes of both kinds and both delimiters, function body, computed definition, every ^st value form, dict, ternary arms, if/while, index/slice, dice operands); same configurations and oracle as gate. "+ntRule,
+		"spellings: 1..7 atoms drawn from whole gated terms (2a5, b2, f, 2c5m7, 3d, (1|2), a template hole holding a statement, ... preferring closed gates), family letters (both cases), modifier letters (m k q d kh kl dh dl min max 优势), numbers, parentheses/brackets, identifier characters (ASCII, CJK, $ _ :, the full-width brackets and digit that count as identifier characters), blanks and operators, placed in one of 61 contexts, or (one case in eight) as the values of an ^st list of 1..5 entries in every entry form (= =( &= += +( -= : name-number *2=( 'quoted'=() mixed with integers and gated terms (bare, assignment, list, call, template holes of both kinds and both delimiters, function body, computed definition, every ^st value form, dict, ternary arms, if/while, index/slice, dice operands); same configurations and oracle as gate. "+ntRule,
 		func(t *rapid.T, s *rt.Section) {
 			c := Case{Cfg: drawCfg(t)}
 			var ctx string
